@@ -69,10 +69,15 @@ harness! { fn db_repeat_model_ml8() { db_repeat_model::<8>(); } }
 
 // C06: drain into a sink that takes any prefix and then stops with Ok(0) or WouldBlock: exactly the accepted bytes
 // leave the buffer, the rest stays in order; the drop count handed to the ring never exceeds its length.
-struct PSink { buf: [u8; 16], n: usize, accept: usize, block: bool }
+/// takes `accept` bytes, then answers ONE stop (Ok(0) or WouldBlock), then is willing to take `resume` more bytes
+struct PSink { buf: [u8; 16], n: usize, accept: usize, block: bool, resume: usize, stopped: bool }
 impl Write for PSink {
     fn write(&mut self, b: &[u8]) -> Result<usize, Error> {
         if self.accept == 0 {
+            if !self.stopped && self.resume > 0 { self.stopped = true; self.accept = self.resume; self.resume = 0;
+                if self.block { return Err(Error::from(crate::io::ErrorKind::WouldBlock)); }
+                return Ok(0);
+            }
             if self.block { return Err(Error::from(crate::io::ErrorKind::WouldBlock)); }
             return Ok(0);
         }
@@ -93,13 +98,19 @@ harness! { fn db_drain_partial_sink() {
     let mut db = DecodeBuffer::new(w);
     // move head so that the content wraps in the 9-byte ring for some `pre`
     let junk = [0u8; 8];
-    db.push(&junk[..pre]);
-    db.buffer.drop_first_n(pre);
+    if pre > 0 {
+        // (drop_first_n on a never-allocated ring divides by cap = 0; its only caller, DrainGuard, never does that:
+        // it drops only when something was written out of a non-empty ring)
+        db.push(&junk[..pre]);
+        db.buffer.drop_first_n(pre);
+    }
     db.push(&data[..l]);
     let accept: usize = nd::any();
     nd::assume(accept <= 8);
     let keep_window: bool = nd::any();
-    let mut sink = PSink { buf: [0; 16], n: 0, accept, block: nd::any() };
+    let resume: usize = nd::any();
+    nd::assume(resume <= 8 - accept);
+    let mut sink = PSink { buf: [0; 16], n: 0, accept, block: nd::any(), resume, stopped: false };
     let r = if keep_window { db.drain_to_window_size_writer(&mut sink) } else { db.drain_to_writer(&mut sink) };
     let drainable = if keep_window { if l > w { l - w } else { 0 } } else { l };
     let taken = if accept < drainable { accept } else { drainable };
@@ -116,6 +127,7 @@ harness! { fn db_drain_partial_sink() {
         assert!(got == data[i], "remaining bytes changed");
     }
     nd_cover!(pre + l > 9 && taken > 0 && taken < l, "wrapped content, partial drain");
+    nd_cover!(pre + l > 9 && taken > 0 && taken < l && resume > 0 && !sink.block, "sink stops inside the first segment and would take more afterwards");
     nd_cover!(keep_window && l > w && accept >= l - w, "drain down to the window");
     core::mem::forget(db);
 } }
